@@ -108,3 +108,146 @@ Proof.
   exists [ACons; AMain; AWk; AMainF; AWA; AAR; ARel; ACons; AWk; AWk; AWk; AWk; AAgg; ARel; ARW; AMain; AMain; AWk; AWk; AWk; AMain; AMain; ACons; ACons; AMain].
   eexists. split; [vm_compute; reflexivity|]. repeat split.
 Qed.
+
+(** ------------------------------------------------------------------------------------------
+    C16 composed with C05 (Compose/ValidateProtocol.v, Compose/ValidateProtocolProofs.v).
+
+    Above, WHAT the passes of Validate find is a parameter ([p_pre], [p_files]).  [params_of]
+    builds these parameters from the inputs of C05's validator model (Val/FileVal.v): the
+    observation of the actual directory at every signed entry ([ds ls fs]), the block size
+    [bs], MaxWoundSize, the block hash; plus the channel capacity [cap], whether pools.New
+    fails in the worker, whether targetPool.Close fails, whether ctx is cancelled before the
+    call.  The consumer is the repaired guardian.  Unscaled: one [PWound] per deviating
+    directory / symlink ([PErr] at an Lstat / Readlink error), per file the raw marker of every
+    block (complete blocks before the size check, the short last block after it) with the
+    merge decisions AggregateWounds takes on it, [FMShort] for a size mismatch, [FWhole] for an
+    entry that is not a regular file or lies below a wounded directory. *)
+From Wharf Require Import Base.Prelude Val.Drip Val.VPool Val.FileVal Val.FileValProofs.
+From Wharf Require Import Compose.ValidateProtocol Compose.ValidateProtocolProofs.
+
+(** [clean] of the protocol parameters is C05's "validation succeeds and reports nothing" *)
+Theorem clean_params_iff_no_report :
+  forall (H : Type) (bs : Z), (0 < bs)%Z -> forall (maxWound : Z) (hash : list N -> H) (heqb : H -> H -> bool)
+         (cap : nat) (startfail closefail ctx0 : bool) ds ls fs,
+    clean (params_of bs maxWound hash heqb cap startfail closefail ctx0 ds ls fs) = true <->
+    exists ws, validate bs maxWound hash heqb ds ls fs = Some ws /\ reported ws = [].
+Proof. exact (@clean_params_iff_no_report_lemma). Qed.
+Print Assumptions clean_params_iff_no_report.
+
+(** End to end ([no_false_valid] o C05's [never_false_valid]): for every schedule of the
+    goroutines, every select choice and every cancellation instant ([ctx0], [ACancel] anywhere
+    in [acts]), whatever the channel capacity and whether or not the worker's pool opens: if
+    fail-fast Validate returns nil then every signed directory is a directory, every symlink
+    has the signed destination and every file is a regular file with exactly the signed
+    content.  Hypotheses: 0 < bs, the strong hash is injective on the blocks compared, the
+    worker's targetPool.Close() does not fail (the [false] argument of [params_of]). *)
+Theorem failfast_nil_means_directory_matches :
+  forall (H : Type) (bs : Z), (0 < bs)%Z -> forall (maxWound : Z) (hash : list N -> H) (heqb : H -> H -> bool),
+    (forall a b, heqb (hash a) (hash b) = true -> a = b) ->
+  forall ds ls fs (cap : nat) (startfail ctx0 : bool) (acts : list action) (s : state),
+    let p := params_of bs maxWound hash heqb cap startfail false ctx0 ds ls fs in
+    run p acts (init p) = Some s -> s_main s = MRet -> s_ret s = RNil ->
+    Forall (fun p => snd p = ODir) ds /\
+    Forall (fun x => let '(_, want, o) := x in o = OLink want) ls /\
+    Forall (fun x => let '(_, signed, o) := x in o = OFile signed) fs.
+Proof. exact (@failfast_nil_means_directory_matches_lemma). Qed.
+Print Assumptions failfast_nil_means_directory_matches.
+
+(** Conversely ([clean_uninterrupted_nil] o "a matching directory reports nothing"): a matching
+    directory validated fail-fast with a context that is never cancelled (the worker's pool
+    opens and closes) returns nil under every schedule.  [heqb h h = true] is bytes.Equal(x, x). *)
+Theorem matching_directory_uninterrupted_nil :
+  forall (H : Type) (bs : Z), (0 < bs)%Z -> forall (maxWound : Z) (hash : list N -> H) (heqb : H -> H -> bool),
+    (forall h, heqb h h = true) ->
+  forall ds ls fs (cap : nat) (acts : list action) (s : state),
+    let p := params_of bs maxWound hash heqb cap false false false ds ls fs in
+    (Forall (fun p => snd p = ODir) ds /\
+     Forall (fun x => let '(_, want, o) := x in o = OLink want) ls /\
+     Forall (fun x => let '(_, signed, o) := x in o = OFile signed) fs) ->
+    ~ In ACancel acts ->
+    run p acts (init p) = Some s -> s_main s = MRet -> s_ret s = RNil.
+Proof. exact (@matching_directory_uninterrupted_nil_lemma). Qed.
+Print Assumptions matching_directory_uninterrupted_nil.
+
+(** the C05-side half of it: validation of a matching directory succeeds and reports nothing *)
+Theorem matching_directory_reports_nothing :
+  forall (H : Type) (bs : Z), (0 < bs)%Z -> forall (maxWound : Z) (hash : list N -> H) (heqb : H -> H -> bool),
+    (forall h, heqb h h = true) ->
+  forall ds ls fs,
+    (Forall (fun p => snd p = ODir) ds /\
+     Forall (fun x => let '(_, want, o) := x in o = OLink want) ls /\
+     Forall (fun x => let '(_, signed, o) := x in o = OFile signed) fs) ->
+    exists ws, validate bs maxWound hash heqb ds ls fs = Some ws /\ reported ws = [].
+Proof. exact (@matching_reports_nothing). Qed.
+Print Assumptions matching_directory_reports_nothing.
+
+(** and the verdict is always reached: with a channel of capacity >= 1 every run on these
+    parameters is bounded and never stuck before Validate returns ([validate_terminates]) *)
+Theorem failfast_validate_returns :
+  forall (H : Type) (bs maxWound : Z) (hash : list N -> H) (heqb : H -> H -> bool)
+         ds ls fs (cap : nat) (startfail ctx0 : bool) (acts : list action) (s : state),
+    let p := params_of bs maxWound hash heqb cap startfail false ctx0 ds ls fs in
+    1 <= cap -> run p acts (init p) = Some s ->
+    length acts <= measure (init p) /\
+    (s_main s = MRet \/ exists a s', a <> ACancel /\ step p a s = Some s').
+Proof. exact (@failfast_validate_returns_lemma). Qed.
+Print Assumptions failfast_validate_returns.
+
+(** [params_of] hands the protocol what the validator model sends.  Files: C16's aggregator
+    ([agg_in] run sequentially = [agg_run]) fed the markers of [file_of] emits exactly the
+    markers of C05's [file_wounds] (as Healthy / Bad, same order) - except that C05 lists the
+    size wound LAST, whereas the worker sends it itself between the two groups of markers (and
+    it may overtake what the aggregator and the relay still hold): C05's list is the multiset
+    of what is sent for the file, not the channel order. *)
+Theorem protocol_file_markers_are_validator_markers :
+  forall (H : Type) (bs : Z), (0 < bs)%Z -> forall (maxWound : Z) (hash : list N -> H) (heqb : H -> H -> bool)
+         (i : Z) (signed content : list N),
+    match file_of bs maxWound hash heqb i signed (OFile content) with
+    | FData ws1 mid ws2 =>
+        map msg_of (file_wounds bs maxWound hash heqb i signed (OFile content))
+        = agg_run false (ws1 ++ ws2) ++ match mid with FMShort => [Bad] | _ => [] end
+    | _ => False
+    end.
+Proof. exact (@file_msgs_bridge). Qed.
+Print Assumptions protocol_file_markers_are_validator_markers.
+
+(** Pre-pass: one [PWound] per wound of C05's directory and symlink passes when both succeed,
+    otherwise some wounds followed by the early return *)
+Theorem protocol_prepass_is_validator_prepass :
+  forall (H : Type) (bs maxWound : Z) (hash : list N -> H) (heqb : H -> H -> bool)
+         (cap : nat) (startfail closefail ctx0 : bool) ds ls fs,
+    match dirs_pass 0 ds, links_pass 0 ls with
+    | Some wd, Some wl =>
+        p_pre (params_core bs maxWound hash heqb cap startfail closefail ctx0 ds ls fs) = map (fun _ => PWound) (wd ++ wl)
+    | _, _ =>
+        exists n, p_pre (params_core bs maxWound hash heqb cap startfail closefail ctx0 ds ls fs) = repeat PWound n ++ [PErr]
+    end.
+Proof. exact (@params_core_pre_spec). Qed.
+Print Assumptions protocol_prepass_is_validator_prepass.
+
+(** a tiny build, bs = 4, block hash = the block itself: directory 0, directory 1 (a symlink on
+    disk), symlink 0 -> 1, file 0 signed "1234|56" and "1294|5" on disk (block 0 flipped, one
+    byte short: the marker of the short block is contiguous with the pending wound), file 1
+    below the wounded directory 1 (hidden: whole-file wound although its bytes are the signed ones) *)
+Example tiny_build_damaged_params :
+  let p := params_of 4%Z 100%Z (fun b : list N => b) nlist_eqb 1 false false false
+             [([], ODir); ([0], OLink 7%N)] [([0], 1%N, OLink 1%N)]
+             [([0], [1;2;3;4;5;6]%N, OFile [1;2;9;4;5]%N); ([0; 1], [1;2;3]%N, OFile [1;2;3]%N)] in
+  p_pre p = [PWound] /\
+  p_files p = [FData [FBad false false] FMShort [FBad true false]; FWhole] /\
+  clean p = false.
+Proof. vm_compute. repeat split. Qed.
+
+(** the same build undamaged: clean parameters, and a concrete schedule under which fail-fast
+    Validate returns nil (the hypotheses of [failfast_nil_means_directory_matches] are satisfiable) *)
+Example tiny_build_matching_run :
+  let p := params_of 4%Z 100%Z (fun b : list N => b) nlist_eqb 1 false false false
+             [([], ODir)] [([0], 1%N, OLink 1%N)] [([0], [1;2;3;4;5;6]%N, OFile [1;2;3;4;5;6]%N)] in
+  p_pre p = [] /\ p_files p = [FData [FHealthy] FMNone [FHealthy]] /\ clean p = true /\
+  exists acts s, run p acts (init p) = Some s /\ s_main s = MRet /\ s_ret s = RNil.
+Proof.
+  cbv zeta. split; [vm_compute; reflexivity|]. split; [vm_compute; reflexivity|]. split; [vm_compute; reflexivity|].
+  exists [ACons; AMain; AWk; AMainF; AWA; AAR; ARel; ACons; AWk; AWk; AWA; AAR; ARel; ACons; AWk; AWk; AAgg; ARel; ARW;
+          AMain; AMain; AWk; AWk; AWk; AMain; AMain; ACons; ACons; AMain].
+  eexists. split; [vm_compute; reflexivity|]. split; reflexivity.
+Qed.
